@@ -239,6 +239,13 @@ func (m ClientState) RestrictChain(cdc codec.BinaryCodec, store sdk.KVStore, new
 		}
 		current = *tmpConsensus
 	}
+	// new and current now share their parent. If they are different headers, new replaces current on the
+	// main chain at height ti; otherwise the first header to re-point is the one above the common ancestor.
+	if new.Hash() != current.Hash() {
+		newHashes = append(newHashes, new.Hash())
+	} else {
+		ti.RevisionHeight++
+	}
 	for i := len(newHashes) - 1; i >= 0; i-- {
 		newTmp := store.Get(EthHeaderIndexKey(newHashes[i], ti.GetRevisionHeight()))
 		if newTmp == nil {
